@@ -9,6 +9,7 @@ from . import common
 from . import sched_d39 as D39
 from . import sched_families as FAM
 from . import sched_graph as SG
+from . import sched_hold as HD
 from . import sched_scenarios as SC
 from . import sched_model as M
 from .sched_common import Sim, choose_targets, gen_plan, run, with_before
@@ -858,6 +859,10 @@ def oracle(ctx):
                  "unchanged by a full recycle " + ("BEFORE the outcome of the validation was committed" if race else
                                                     "after the step was parked") + "; nothing clears the flag",
                  {"replay": name, "trace": r["trace"], "states": r["states"], "stuck": r["stuck"], "after": r["after"]})
+    # directed family: hold / release / failure / full recycle of a step whose subtree is two or more levels deep
+    # (RECURSIVE_CHECK_WITH_PRODUCTS must reach every step below it)
+    HD.run_hold_deep_family(HD.VARIANTS, fail, lambda v, obs: ctx.case(("hold-deep", repr(v)), True))
+    ctx.count("hold_deep_cases", len(HD.VARIANTS))
     # D39-refine (found by C02): deferring a step and re-attaching its orphan dynamic input by a declaration must
     # commute on the step's row (C10_defer_and_reattachment_commute_on_the_deferred_flag).  Judged only for the
     # refined trigger; for the unconditional trigger of repo 84081f2 the Coq refutation
